@@ -17,9 +17,13 @@ def specHasSet (getset : Bool) (doc : Option (Bool × Bool)) (promS : List Strin
 def specKeys (getset : Bool) (tc : TagCase) (doc : Option (Bool × Bool)) (promG promS : List String) (t : Tree) :
     List JKey :=
   (leavesTop t).filterMap (fun l =>
-    if l.info.skip || goShadowed t l.depth l.info.name then none
+    if goShadowed t l.depth l.info.name then none
     else
       let tag := if l.top ∧ l.info.jsonTag ≠ "" then l.info.jsonTag else trans tc l.info.name
+      -- "one key per exported field": also for an exported field that is left out of generation (`new:"-"`)
+      if l.info.skip then
+        (if isExportedName l.info.name then some ⟨tag, l.info.name, true, false, false, false, false⟩ else none)
+      else
       if isExportedName l.info.name then some ⟨tag, l.info.name, true, false, false, false, false⟩
       else
         let g := specHasGet getset doc promG l
@@ -27,6 +31,11 @@ def specKeys (getset : Bool) (tc : TagCase) (doc : Option (Bool × Bool)) (promG
         if g || s then some ⟨tag, l.info.name, false, g, s,
           l.top && getset && wantsGet l.info && typeGetter doc, l.top && getset && wantsSet l.info && typeSetter doc⟩
         else none)
+
+/-- an EXPORTED field that is left out of generation: the generated MarshalJSON / UnmarshalJSON drop it, although the
+    property asks for a key per exported field (finding region F_jsonSkipExported) -/
+def skippedExported (t : Tree) : Bool :=
+  (leavesTop t).any (fun l => l.info.skip && isExportedName l.info.name && !goShadowed t l.depth l.info.name)
 
 /-! ## meaning: marshal / unmarshal through the shadow struct -/
 
